@@ -67,17 +67,23 @@ Qed.
 Definition gen_wd_elem (wday1 : str) : gres wd :=
   (if has_char 40 wday1 then (let splt2 := (split_on 40 wday1) in gbind (g_nth splt2 0) (fun t3 => (let w4 := t3 in gbind (g_nth splt2 1) (fun t5 => gbind (g_int (removelast t5)) (fun t6 => (let n7 := t6 in gbind (g_lookup tbl_weekday_map w4) (fun t8 => gbind (g_weekday t8 (Some n7)) (fun t9 => GOk t9)))))))) else (if negb (isnil wday1) then (let i10 := scan_idx [43; 45; 48; 49; 50; 51; 52; 53; 54; 55; 56; 57] wday1 in (let n11 := (if isnil (firstn i10 wday1) then None else Some (firstn i10 wday1)) in (let w12 := (skipn i10 wday1) in (match n11 with Some n13 => gbind (g_int n13) (fun t14 => (let n15 := t14 in gbind (g_lookup tbl_weekday_map w12) (fun t16 => gbind (g_weekday t16 (Some n15)) (fun t17 => GOk t17)))) | None => gbind (g_lookup tbl_weekday_map w12) (fun t18 => gbind (g_weekday t18 None) (fun t19 => GOk t19)) end)))) else GExc XValue)).
 
-Lemma lookup_weekday_mk w n : gopt (gbind (g_lookup tbl_weekday_map w) (fun t => gbind (g_weekday t n) (fun t' => GOk t'))) = mk_wd w n.
+Definition gcls (o : option err) : gexc := match o with Some e => gexc_of_err e | None => XValue end.
+
+Lemma lookup_weekday_mk w n :
+  gbind (g_lookup tbl_weekday_map w) (fun t => gbind (g_weekday t n) (fun t' => GOk t')) =
+  match mk_wd w n with Some x => GOk x | None => GExc (gcls (mk_wd_class w n)) end.
 Proof.
-  rewrite tbl_weekday_map_spec. unfold mk_wd. destruct (wday_of w) as [i|] eqn:E; [|reflexivity].
+  rewrite tbl_weekday_map_spec. unfold mk_wd, mk_wd_class. destruct (wday_of w) as [i|] eqn:E; [|reflexivity].
   cbn [gbind]. unfold g_weekday. pose proof (wday_of_range w i E).
   replace ((0 <=? i) && (i <=? 6)) with true by lia.
   destruct n as [[| |]|]; reflexivity.
 Qed.
 
-Lemma gen_wd_elem_spec x : gopt (gen_wd_elem x) = parse_wd x.
+(* one member, with the exception class *)
+Lemma gen_wd_elem_spec x :
+  gen_wd_elem x = match parse_wd x with Some w => GOk w | None => GExc (gcls (parse_wd_class x)) end.
 Proof.
-  unfold gen_wd_elem, parse_wd. destruct (has_char 40 x).
+  unfold gen_wd_elem, parse_wd, parse_wd_class. destruct (has_char 40 x).
   - cbv zeta. unfold g_nth. destruct (split_on 40 x) as [|w [|a t]]; try reflexivity. cbn [nth_error gbind].
     unfold g_int. destruct (py_int (removelast a)) as [n|]; [|reflexivity]. cbn [gbind]. apply lookup_weekday_mk.
   - destruct (isnil x) eqn:En; [reflexivity|]. cbn [negb]. cbv zeta. fold sdset.
@@ -96,42 +102,48 @@ Proof.
       * unfold g_int. destruct (py_int (a0 :: at')); [|reflexivity]. cbn [gbind]. apply lookup_weekday_mk.
 Qed.
 
+(* the member is rejected exactly when the class function names a class *)
+Lemma mk_wd_consistent w n : mk_wd w n = None <-> mk_wd_class w n <> None.
+Proof.
+  unfold mk_wd, mk_wd_class. destruct (wday_of w); [|split; [discriminate|reflexivity]].
+  destruct n as [[| |]|]; split; try discriminate; try reflexivity; intro H; congruence.
+Qed.
+Lemma parse_wd_consistent x : parse_wd x = None <-> parse_wd_class x <> None.
+Proof.
+  unfold parse_wd, parse_wd_class. destruct (has_char 40 x).
+  - destruct (split_on 40 x) as [|w [|a t]]; try (split; [discriminate|reflexivity]).
+    destruct (py_int (removelast a)); [apply mk_wd_consistent|split; [discriminate|reflexivity]].
+  - destruct (isnil x); [split; [discriminate|reflexivity]|]. cbv zeta.
+    destruct (isnil _); [apply mk_wd_consistent|].
+    destruct (py_int _); [apply mk_wd_consistent|split; [discriminate|reflexivity]].
+Qed.
+
+Lemma gmapM_wd : forall l,
+  gmapM gen_wd_elem l = match opt_all (map parse_wd l) with Some ws => GOk ws | None => GExc (gexc_of_err (first_class l)) end.
+Proof.
+  induction l as [|x l IH]; [reflexivity|]. cbn [gmapM map opt_all first_class]. rewrite gen_wd_elem_spec.
+  pose proof (parse_wd_consistent x) as C.
+  destruct (parse_wd x) as [w|]; cbn [gbind].
+  - destruct (parse_wd_class x) as [e|]; [exfalso; assert (D : Some w = None) by (apply C; discriminate); discriminate|].
+    rewrite IH. destruct (opt_all (map parse_wd l)); reflexivity.
+  - destruct (parse_wd_class x) as [e|]; [reflexivity|]. exfalso. apply (proj1 C eq_refl). reflexivity.
+Qed.
+
 Lemma gen_handle_BYWEEKDAY_spec ig name value kw :
-  gopt (gen_handle_BYWEEKDAY ig name value kw) = option_map (fun l => set_byweekday l kw) (wd_list value).
+  gres_res (gen_handle_BYWEEKDAY ig name value kw) =
+  match wd_list value with Some l => Ok (set_byweekday l kw) | None => Err (wd_list_class value) end.
 Proof.
-  unfold gen_handle_BYWEEKDAY. fold gen_wd_elem.
-  pose proof (gmapM_opt_all gen_wd_elem parse_wd (split_on 44 value) gen_wd_elem_spec) as H.
-  unfold wd_list. rewrite <- H. destruct (gmapM gen_wd_elem (split_on 44 value)); reflexivity.
+  unfold gen_handle_BYWEEKDAY. fold gen_wd_elem. rewrite gmapM_wd. unfold wd_list, wd_list_class.
+  destruct (opt_all (map parse_wd (split_on 44 value))); cbn [gbind gres_res]; [reflexivity|].
+  destruct (first_class (split_on 44 value)); reflexivity.
 Qed.
 
-(* ---- XUnm (outside the modelled date forms) only comes out of g_parse ---- *)
-Definition noUnm {A} (r : gres A) : Prop := match r with GExc XUnm | GExc XType => False | _ => True end.
-Lemma noUnm_bind {A B} (a : gres A) (f : A -> gres B) : noUnm a -> (forall x, noUnm (f x)) -> noUnm (gbind a f).
-Proof. destruct a as [x|[]]; cbn; auto. Qed.
-Lemma noUnm_mapM {A B} (f : A -> gres B) l : (forall x, noUnm (f x)) -> noUnm (gmapM f l).
+Lemma gmapM_int : forall l,
+  gmapM (fun x1 => gbind (g_int x1) (fun t2 => GOk t2)) l =
+  match opt_all (map py_int l) with Some t => GOk t | None => GExc XValue end.
 Proof.
-  intro H. induction l as [|x l IH]; [exact I|]. cbn [gmapM]. apply noUnm_bind; [apply H|].
-  intro y. apply noUnm_bind; [exact IH|]. intro t. exact I.
-Qed.
-Lemma noUnm_int s : noUnm (g_int s). Proof. unfold g_int. destruct (py_int s); exact I. Qed.
-Lemma noUnm_lookup t k : noUnm (g_lookup t k).
-Proof. induction t as [|[n v] t IH]; [exact I|]. cbn. destruct (leqb n k); [exact I|exact IH]. Qed.
-Lemma noUnm_nth {A} (l : list A) i : noUnm (g_nth l i). Proof. unfold g_nth. destruct (nth_error l i); exact I. Qed.
-Lemma noUnm_weekday i n : noUnm (g_weekday i n).
-Proof. unfold g_weekday. destruct ((0 <=? i) && (i <=? 6)); [|exact I]. destruct n as [[| |]|]; exact I. Qed.
-
-Lemma gen_wd_elem_noUnm x : noUnm (gen_wd_elem x).
-Proof.
-  unfold gen_wd_elem. destruct (has_char 40 x).
-  - cbv zeta. repeat (apply noUnm_bind; [first [apply noUnm_nth|apply noUnm_int|apply noUnm_lookup|apply noUnm_weekday]|intro]). exact I.
-  - destruct (negb (isnil x)); [|exact I]. cbv zeta.
-    destruct (isnil (firstn _ x));
-      repeat (apply noUnm_bind; [first [apply noUnm_nth|apply noUnm_int|apply noUnm_lookup|apply noUnm_weekday]|intro]); exact I.
-Qed.
-
-Lemma gen_wd_no_unm ig name value kw : noUnm (gen_handle_BYWEEKDAY ig name value kw).
-Proof.
-  unfold gen_handle_BYWEEKDAY. fold gen_wd_elem. apply noUnm_bind; [apply noUnm_mapM, gen_wd_elem_noUnm|intro; exact I].
+  induction l as [|x l IH]; [reflexivity|]. cbn [gmapM map opt_all]. unfold g_int at 1.
+  destruct (py_int x); cbn [gbind]; [|reflexivity]. rewrite IH. destruct (opt_all (map py_int l)); reflexivity.
 Qed.
 
 (* ---- the dispatch table ---- *)
@@ -145,10 +157,8 @@ Lemma gen_list_spec ig name value kw i :
   gres_res (gen_handle_int_list ig name value kw) =
   match int_list value with Some l => Ok (set_list i l kw) | None => Err EValue end.
 Proof.
-  intro H. unfold gen_handle_int_list. rewrite H. rewrite <- (gen_int_list_spec value).
-  assert (E : noUnm (gmapM (fun x1 => gbind (g_int x1) (fun t2 => GOk t2)) (split_on 44 value))).
-  { apply noUnm_mapM. intro x. apply noUnm_bind; [apply noUnm_int|intro; exact I]. }
-  destruct (gmapM _ (split_on 44 value)) as [t|[]]; try reflexivity; try contradiction.
+  intro H. unfold gen_handle_int_list. rewrite H. rewrite gmapM_int. unfold int_list.
+  destruct (opt_all (map py_int (split_on 44 value))); reflexivity.
 Qed.
 
 Ltac names_unfold := unfold s_INTERVAL, s_COUNT, s_FREQ, s_UNTIL, s_WKST, s_BYWEEKDAY, s_BYDAY, s_BYSETPOS, s_BYMONTH,
@@ -165,29 +175,23 @@ Proof.
     rewrite (gen_int_spec ig s_COUNT value kw set_count) by reflexivity. reflexivity.
   - change (gen_dispatch ig s_FREQ value kw) with (gen_handle_FREQ ig s_FREQ value kw).
     unfold gen_handle_FREQ. rewrite tbl_freq_map_spec.
-    change (handle ig s_FREQ value kw) with (match freq_of value with Some f => Ok (set_freq f kw) | None => Err EValue end).
+    change (handle ig s_FREQ value kw) with (match freq_of value with Some f => Ok (set_freq f kw) | None => Err EKey end).
     destruct (freq_of value); reflexivity.
   - change (gen_dispatch ig s_UNTIL value kw) with (gen_handle_UNTIL ig s_UNTIL value kw).
     unfold gen_handle_UNTIL, g_parse.
     change (handle ig s_UNTIL value kw) with (match parse_date ig value with
-      | DOk d => Ok (set_until d kw) | DBad => Err EValue | DUn => Err EUnmodelled end).
+      | DOk d => Ok (set_until d kw) | DBad => Err EValue | DOv => Err EValue | DUn => Err EUnmodelled end).
     destruct (parse_date ig value); reflexivity.
   - change (gen_dispatch ig s_WKST value kw) with (gen_handle_WKST ig s_WKST value kw).
     unfold gen_handle_WKST. rewrite tbl_weekday_map_spec.
-    change (handle ig s_WKST value kw) with (match wday_of value with Some f => Ok (set_wkst f kw) | None => Err EValue end).
+    change (handle ig s_WKST value kw) with (match wday_of value with Some f => Ok (set_wkst f kw) | None => Err EKey end).
     destruct (wday_of value); reflexivity.
   - change (gen_dispatch ig s_BYWEEKDAY value kw) with (gen_handle_BYWEEKDAY ig s_BYWEEKDAY value kw).
-    change (handle ig s_BYWEEKDAY value kw) with (match wd_list value with Some l => Ok (set_byweekday l kw) | None => Err EValue end).
-    pose proof (gen_handle_BYWEEKDAY_spec ig s_BYWEEKDAY value kw) as H.
-    pose proof (gen_wd_no_unm ig s_BYWEEKDAY value kw) as U.
-    destruct (gen_handle_BYWEEKDAY ig s_BYWEEKDAY value kw) as [k|[]]; destruct (wd_list value); cbn in *;
-      try discriminate; try contradiction; try reflexivity. inversion H; reflexivity.
+    change (handle ig s_BYWEEKDAY value kw) with (match wd_list value with Some l => Ok (set_byweekday l kw) | None => Err (wd_list_class value) end).
+    apply gen_handle_BYWEEKDAY_spec.
   - change (gen_dispatch ig s_BYDAY value kw) with (gen_handle_BYWEEKDAY ig s_BYDAY value kw).
-    change (handle ig s_BYDAY value kw) with (match wd_list value with Some l => Ok (set_byweekday l kw) | None => Err EValue end).
-    pose proof (gen_handle_BYWEEKDAY_spec ig s_BYDAY value kw) as H.
-    pose proof (gen_wd_no_unm ig s_BYDAY value kw) as U.
-    destruct (gen_handle_BYWEEKDAY ig s_BYDAY value kw) as [k|[]]; destruct (wd_list value); cbn in *;
-      try discriminate; try contradiction; try reflexivity. inversion H; reflexivity.
+    change (handle ig s_BYDAY value kw) with (match wd_list value with Some l => Ok (set_byweekday l kw) | None => Err (wd_list_class value) end).
+    apply gen_handle_BYWEEKDAY_spec.
   - change (gen_dispatch ig s_BYSETPOS value kw) with (gen_handle_int_list ig s_BYSETPOS value kw).
     rewrite (gen_list_spec ig s_BYSETPOS value kw 0) by reflexivity. reflexivity.
   - change (gen_dispatch ig s_BYMONTH value kw) with (gen_handle_int_list ig s_BYMONTH value kw).
@@ -234,7 +238,7 @@ Theorem gen_dispatch_spec ig n value kw :
 Proof.
   destruct (RstrThmErr.known (upper n)) eqn:K; [apply disp_known, K|].
   rewrite (disp_unknown ig (upper n) value kw K).
-  - rewrite (unknown_part_valueerror ig (upper n) value kw K). reflexivity.
+  - rewrite (unknown_part_attributeerror ig (upper n) value kw K). reflexivity.
   - apply (upper_not_lowercase n _ 105); [left; reflexivity|reflexivity].
   - apply (upper_not_lowercase n _ 105); [left; reflexivity|reflexivity].
 Qed.
@@ -245,7 +249,7 @@ Definition gen_step (ig : bool) (rrkwargs4 : kwargs) (pair3 : str) : gres kwargs
 
 Lemma gen_step_spec ig kw p :
   gres_res (gen_step ig kw p) =
-  match split_on 61 p with [n; v] => handle ig (upper n) (upper v) kw | _ => Err EValue end.
+  match split_on 61 p with [n; v] => catch_pair (handle ig (upper n) (upper v) kw) | _ => Err EValue end.
 Proof.
   unfold gen_step. destruct (split_on 61 p) as [|a [|b [|c t]]]; try reflexivity. cbv zeta.
   rewrite <- gen_dispatch_spec. destruct (gen_dispatch ig (upper a) (upper b) kw) as [k|[]]; reflexivity.
@@ -255,7 +259,7 @@ Lemma gen_fold_spec ig : forall pairs kw,
   gres_res (gfoldM (gen_step ig) pairs kw) = handle_pairs ig pairs kw.
 Proof.
   induction pairs as [|p r IH]; intro kw; [reflexivity|]. cbn [gfoldM handle_pairs].
-  pose proof (gen_step_spec ig kw p) as S.
+  pose proof (gen_step_spec ig kw p) as S. unfold catch_pair in S.
   destruct (gen_step ig kw p) as [k|e] eqn:E; cbn [gbind].
   - cbn [gres_res] in S. destruct (split_on 61 p) as [|a [|b [|c t]]]; try discriminate.
     rewrite <- S. apply IH.
@@ -289,7 +293,9 @@ Qed.
 (* and with the constructor (call table: rrule(dtstart=, cache=, **rrkwargs) = ctor): the rule *)
 Theorem gen_parse_rule_spec ev ig line st :
   parse_rule ev ig line st =
-  match gres_res (gen_parse_rfc_rrule ig line) with Ok kw => ctor ev st kw | Err e => Err e end.
+  match gres_res (gen_parse_rfc_rrule ig line) with
+  | Ok kw => catch (ctor ev st kw) [EOverflow] EValue      (* except OverflowError: raise ValueError *)
+  | Err e => Err e end.
 Proof.
   rewrite gen_parse_rfc_rrule_spec. unfold parse_rule. destruct (parse_rrule_kw ig line) as [kw|e]; [|reflexivity].
   destruct (isNone (k_freq kw)) eqn:F; [reflexivity|reflexivity].
